@@ -813,6 +813,15 @@ def gen_c12(rnd, n, thorough=False):
             fl += fill_ops(rnd, 's/i1/f%d.wsp' % q, lay, 2, 0x3f000000, density=0.7, inconsistent=False)
         fl.append('conhttp s/i1/f0.wsp %d @' % rnd.randint(3, 6))
         cases.append({'id': 'c12-inflight-%d' % j, 'lines': fl, 'tags': {'layout': 'inflight'}})
+    # a glob that matches a round number of names (1000; thorough: other page-like counts): the list a server
+    # sends is the list the directory gives, however many names it has
+    for cnt in ([1000] if not thorough else [1000, 500, 512, 1024, 2000, 100, 256]):
+        ml = []
+        for i in range(cnt):
+            nm = 'g/f%04d.wsp' % i
+            ml += ["create %s 1 1 2 m 2 x 00000000" % nm, "sync %s" % nm, "drop %s" % nm]
+        ml += ["clidiff src=g:*.wsp dest=g: from=0 until=0 archive=-1 remote=0", "clidiff src=g:*.wsp dest=ROOT: from=0 until=0 archive=-1 remote=1"]
+        cases.append({'id': 'c12-names-%d' % cnt, 'lines': ml, 'tags': {'layout': 'names%d' % cnt}})
     # answers of more than a megabyte (a long archive viewed over its whole retention, its raw dump)
     N = 140000 if not thorough else 200000
     offs = sorted(set([0, 1, 2, N - 2, N - 1, N // 2] + [rnd.randrange(N) for _ in range(5)]))
